@@ -443,4 +443,3 @@ package protocol
 //@ func Trailer.UpdateArgBytes(t, key, value) err
 //@   modifies t._all, alltype(protocol.argsKV), membut(key, value)
 //@   allocates
-
